@@ -98,7 +98,7 @@ func (g *gen) freshType(allowIface bool) int {
 	k := g.r.Intn(100)
 	pkg := ""
 	if g.o.Ext && g.r.Intn(100) < 20 {
-		pkg = g.s.ExtPkgs[0].Name
+		pkg = g.s.ExtPkgs[g.r.Intn(len(g.s.ExtPkgs))].Dir
 	}
 	switch {
 	case k < 30: // pointer to struct
@@ -416,8 +416,10 @@ func (g *gen) newProv(depth int, result int) int {
 		p.Results = append(p.Results, g.freshType(false))
 	}
 	p.Fn = fmt.Sprintf("New%sP%d", typeBaseName(g.s, p.Results[0]), id)
-	if g.o.Ext && len(p.Params) == 0 && g.allExt(p.Results) {
-		p.Pkg = g.s.ExtPkgs[0].Name
+	if g.o.Ext && len(p.Params) == 0 {
+		if d := g.allExt(p.Results); d != "" {
+			p.Pkg = d
+		}
 	}
 	p.Async = g.r.Float64() < g.o.AsyncP
 	if g.o.ForceAsyncRoots && len(p.Params) == 0 {
@@ -438,17 +440,20 @@ func (g *gen) newProv(depth int, result int) int {
 	return id
 }
 
-func (g *gen) allExt(ts []int) bool {
+// allExt returns the sibling package all result types live in ("" if none or mixed).
+func (g *gen) allExt(ts []int) string {
+	dir := ""
 	for _, t := range ts {
 		tt := g.s.Types[t]
 		if tt.Base >= 0 {
 			tt = g.s.Types[tt.Base]
 		}
-		if tt.Pkg == "" {
-			return false
+		if tt.Pkg == "" || tt.Kind == KRaw || (dir != "" && tt.Pkg != dir) {
+			return ""
 		}
+		dir = tt.Pkg
 	}
-	return true
+	return dir
 }
 
 func typeBaseName(s *Spec, t int) string {
@@ -477,6 +482,14 @@ func Generate(seed int64, name string, o GenOpts) *Spec {
 			e.Alias = "xt"
 		}
 		s.ExtPkgs = []ExtPkg{e}
+		if r.Intn(2) == 0 {
+			// two more sibling packages that share one package name
+			nm := []string{"store", "config", "client"}[r.Intn(3)]
+			s.ExtPkgs = append(s.ExtPkgs, ExtPkg{Dir: "users/" + nm, Name: nm}, ExtPkg{Dir: "orders/" + nm, Name: nm, Alias: "orders" + nm})
+			if r.Intn(2) == 0 {
+				s.ExtPkgs = append(s.ExtPkgs, ExtPkg{Dir: "items/" + nm, Name: nm, Alias: "items" + nm})
+			}
+		}
 	}
 	if o.Static {
 		s.Dynamic = false
